@@ -245,6 +245,29 @@ func genC18(r *rng, tier string, st *stats) []taggedScen {
 			}
 		}
 	}
+	// recovered failures: every attempt fails, the fallback recovers, post returns each action
+	for _, k := range userKinds(2, 0, false) {
+		if k.Fb != "user" || k.Exec == "absent" || k.Post == "absent" {
+			continue
+		}
+		for _, a := range acts {
+			for _, inFlow := range []bool{false, true} {
+				b := newSB()
+				x := b.add(k)
+				b.lifecycle(x, k, lcPlan{k: 0, extra: 3, fbOK: true, postAct: a})
+				tags := []string{"kind=" + k.Impl, fmt.Sprintf("post_action=%d", a), "recovered_by_fallback"}
+				if inFlow {
+					y := marker(b)
+					z := marker(b)
+					b.sc.Root = b.flow(x, [][]int{{x, 1, y}, {x, 5, z}})
+					tags = append(tags, "in_flow")
+				} else {
+					b.sc.Root = x
+				}
+				add(b, tags, a == 0)
+			}
+		}
+	}
 	// batch nodes
 	type prepShape struct {
 		name  string
@@ -344,6 +367,7 @@ func genC18(r *rng, tier string, st *stats) []taggedScen {
 			add(b2, []string{"kind=flow", fmt.Sprintf("depth=%d", depth), fmt.Sprintf("post_action=%d", a)}, a == 0)
 		}
 	}
+	out = append(out, commonPool(r, tier, "C18")...)
 	st.Exhaustive = true
 	st.Scope = "all node kinds x post action in {\"\", default, custom} x batch sizes 0..3 x zero-item prep shapes x {direct run, routed step of a flow}; flows as nodes to depth 3"
 	st.Rule = "enumeration; a case is non-trivial when the post phase returns the empty action (normalisation is exercised); distinct by scenario hash"
@@ -352,8 +376,5 @@ func genC18(r *rng, tier string, st *stats) []taggedScen {
 }
 
 func engineImports(prop string) string {
-	if prop == "C18" {
-		return "Base Script FlowTable Engine EngineCorr SpecC18"
-	}
 	return "Base Script FlowTable Engine EngineCorr SpecC18 Lifecycle SpecEngine"
 }
